@@ -219,7 +219,7 @@ class _HP(HTMLParser):
         if _rawnorm(txt):
             self.stack[-1].append(('t', _rawnorm(txt)))
 
-_RAW_OPENERS = re.compile(r'<\?|<!\[|<![A-Za-z]|<(?:script|style|textarea)', re.I)
+_RAW_OPENERS = re.compile(r'<\?|<!\[|<![A-Za-z]|<!--|<(?:script|style|textarea)', re.I)
 _STRUCT_LINE = re.compile(r'</?(?:blockquote|ul|ol|li|p|pre|h[1-6]|hr)(?:[ >/]|$)')
 
 
